@@ -226,11 +226,20 @@ inductive NoneSingle where
   | emptyObject  -- as an instance without values: `{}` on the wire    (pinned tree: dict documents)
   deriving Repr, DecidableEq
 
+/-- how a `None` response of a method that is not wrapped arrives when its out-message is a
+    `ComplexModel` without members (`XmlDocument._bare_response`: the schema declares that element
+    without `nillable`) -/
+inductive BareNone where
+  | nil            -- as `None`: `null`, `xsi:nil`                      (dict documents)
+  | emptyInstance  -- as an instance without values: the empty element (XML family)
+  deriving Repr, DecidableEq
+
 structure ProtoCfg where
   bareOut : BareOut
   shortOut : ShortOut
   bareIn : BareIn
   noneSingle : NoneSingle
+  bareNone : BareNone
   deriving Repr, DecidableEq
 
 structure Facts18 where
@@ -432,8 +441,26 @@ def unwrapWrapped (P : ProtoCfg) (s : Sig) (n : Nat) (vs : List Val) : Val :=
   | 1, v :: _ => singleAs P s v
   | _, vs => .seq vs
 
-/-- serialise `ctx.out_object` with protocol `P`, transmit, decode on the client -/
-def respond (P : ProtoCfg) (τ : Val → Val) (s : Sig) (out : Val) : Res Val :=
+/-- A missing object of a member-less class cannot be told from an empty one on a protocol that
+    writes both as the empty element: the client decodes an instance. (When nothing is declared
+    the out-message is the synthesised wrapper; its content, nil or empty, means nothing.) -/
+def bareNoneAs (P : ProtoCfg) (s : Sig) (v : Val) : Val :=
+  match P.bareNone, s.returns, v with
+  | .emptyInstance, .one (.complex cls []), .none => .obj cls []
+  | _, _, v => v
+
+/-- what protocol `P` makes of a result value of signature `s` beyond the value transfer `τ` -/
+def viewVal (P : ProtoCfg) (s : Sig) (v : Val) : Val :=
+  if s.style = .wrapped then v else bareNoneAs P s v
+
+def Res.map {α β : Type} (g : α → β) : Res α → Res β
+  | .ok a => .ok (g a)
+  | .fault c => .fault c
+  | .exc e => .exc e
+
+/-- serialise `ctx.out_object` with protocol `P`, transmit, decode on the client; everything except
+    `_bare_response` -/
+def respondCore (P : ProtoCfg) (τ : Val → Val) (s : Sig) (out : Val) : Res Val :=
   if s.bodyStyle = .wrapped then
     (match out with
      | .seq vs => (takeOut P s.outLen vs).bind fun ws => .ok (unwrapWrapped P s s.outLen (ws.map (xfer τ)))
@@ -445,6 +472,10 @@ def respond (P : ProtoCfg) (τ : Val → Val) (s : Sig) (out : Val) : Res Val :=
        (match first out with
         | .ok v => if s.noReturn then .ok .none else .ok (xfer τ v)
         | _ => .fault "Server"))
+
+/-- serialise `ctx.out_object` with protocol `P`, transmit, decode on the client -/
+def respond (P : ProtoCfg) (τ : Val → Val) (s : Sig) (out : Val) : Res Val :=
+  (respondCore P τ s out).map (viewVal P s)
 
 /-- a client sends `(*pos, **kw)` through protocol `P` to a server running the same
     application and decodes the reply -/
@@ -476,6 +507,11 @@ def wireView (s : Sig) : Res Val → Res Val
   | .ok (.ignored _) => .ok (emptyReply s)
   | .ok (.gen xs) => .ok (.seq xs)
   | r => r
+
+/-- … as seen through protocol `P`: in addition, where `P` cannot tell a missing member-less object
+    from an empty one (`viewVal`), `None` is compared with the empty instance -/
+def wireViewP (P : ProtoCfg) (s : Sig) (r : Res Val) : Res Val :=
+  (wireView s r).map (viewVal P s)
 
 /-! ## Conformance (the hypotheses of the property) -/
 
